@@ -850,7 +850,7 @@ class TranscriptInterval(AbstractFeatureInterval):
             end,
             getattr(self, name, name),
             score,
-            self.strand,
+            self.strand if chromosome_relative_coordinates else self.chunk_relative_strand,
             cds_start,
             cds_end,
             rgb,
